@@ -132,6 +132,32 @@ def load(tier, want_ok=None, limit=None, salt=0, single_file=False):
     return res
 
 
+def from_texts(items):
+    """single-file documents given as (name, text): the same model (lexemes, base observation, forest)"""
+    fxs = []
+    for name, text in items:
+        fx = Fx()
+        fx.path, fx.name, fx.root = None, name, "main.jst"
+        fx.data = text.encode("utf-8") if isinstance(text, str) else text
+        fx.files = {"main.jst": fx.data}
+        fx.nl = newline_of(fx.data)
+        fxs.append(fx)
+    lex = harness("lex", [{"id": fx.name, "b64": b64(fx.data)} for fx in fxs])
+    obs = harness("run", [case(fx.name, fx.files, fx.root, want=["forest"]) for fx in fxs])
+    res = []
+    for fx in fxs:
+        lo, o = lex[fx.name], obs[fx.name]
+        if lo.get("panic") or o["outcome"] not in ("ok", "error"):
+            continue
+        fx.lex = [tuple(x) for x in lo["lex"]]
+        fx.err = lo["err_idx"]
+        fx.obs = o
+        fx.forest = o.get("forest") or []
+        fx.kwl = kwlines(fx)
+        res.append(fx)
+    return res
+
+
 def kwlines(fx):
     """lexemes that begin their line: (line start, lexeme begin, lexeme index, type, type of the previous lexeme)"""
     res = []
@@ -543,27 +569,47 @@ def sibling_runs(fx, rnd, count, kinds_excluded=("JSIGHT",)):
     return res
 
 
-def c08(chk, tier):
-    """runs of complete top-level directives / complete children of an implicitly nested directive of a fixture moved
-    into an included file"""
+FOLLOWERS = [["Headers", "{", '  "vfh": 1', "}"], ["Query", "{", '  "vfq": 1', "}"], ["Body any"], ["200 any"], ["Path", "{", '  "vfp": 1', "}"],
+             ['Title "vf"'], ['BaseUrl "http://vf"'], ["Description", "  vf text"], ["Method vfm"], ["Params", "{}"], ["Request any"],
+             ["Protocol json-rpc-2.0"], ["GET"], ["Version 2"], ["Result", "{}"]]
+
+
+def c08(chk, tier, extra=None):
+    """runs of complete top-level directives / complete children of an implicitly nested directive moved into an included
+    file.  Documents: the fixture corpus and (extra) generated API documents.  Each (document, run) is also tried with
+    a directive line put right after the run that does not belong there: when the one-file document is rejected for it,
+    the two-file project must be rejected too (what follows an INCLUDE nests as it would after the included lines)."""
     import rel
     thorough = tier == "thorough"
-    fxs = load(tier, limit=None if thorough else 160, salt=8, single_file=True)
+    fxs = load(tier, limit=None if thorough else 160, salt=8, single_file=True) + list(extra or [])
     rnd = random.Random(seed() * 31 + 8)
     cases, meta = [], {}
     for n, fx in enumerate(fxs):
         for j, (s, e, pk, nodes) in enumerate(sibling_runs(fx, random.Random(rnd.random()), 6 if thorough else 2)):
             name = rnd.choice(["vfpart.jst", "vfsub/part.jst", "vfsub/deep/p.jst"])
-            ind = fx.data[s:fx.data.find(fx.data[s:].lstrip(b" \t")[:1], s)] if fx.data[s:].lstrip(b" \t") else b""
-            main = fx.data[:s] + ind + b"INCLUDE " + name.encode() + fx.nl + fx.data[e:]
-            files = {fx.root: main, name: fx.data[s:e]}
-            cid = "fi%d_%d" % (n, j)
-            cases.append(case(cid, files, fx.root))
-            depth = sum(1 if t == OPEN else -1 for (t, b, e) in fx.lex if t in (OPEN, CLOSE) and b < s)
-            meta[cid] = (fx, pk, files, name, depth)
+            ind = fx.data[s:len(fx.data) - len(fx.data[s:].lstrip(b" \t"))]
+            depth = sum(1 if t == OPEN else -1 for (t, b, e2) in fx.lex if t in (OPEN, CLOSE) and b < s)
+            variants = [("", b"")]
+            if fx.obs["outcome"] == "ok" and depth == 0:
+                for fl in rnd.sample(FOLLOWERS, 4 if thorough else 2):
+                    variants.append((fl[0].split()[0], b"".join(ind + x.encode() + fx.nl for x in fl)))
+            for v, (fk, ftxt) in enumerate(variants):
+                flat = fx.data[:e] + ftxt + fx.data[e:]
+                main = fx.data[:s] + ind + b"INCLUDE " + name.encode() + fx.nl + ftxt + fx.data[e:]
+                files = {fx.root: main, name: fx.data[s:e]}
+                cid = "fi%d_%d_%d" % (n, j, v)
+                cases.append(case(cid, files, fx.root))
+                if fk:
+                    cases.append(case(cid + "f", {fx.root: flat}, fx.root))
+                meta[cid] = (fx, pk, files, name, depth, fk, flat)
     obs = harness("run", cases)
-    for cid, (fx, pk, files, name, depth) in meta.items():
-        a, b = fx.obs, obs[cid]
+    nfollow = 0
+    for cid, (fx, pk, files, name, depth, fk, flat) in meta.items():
+        a, b = (obs[cid + "f"] if fk else fx.obs), obs[cid]
+        if fk and a["outcome"] == "ok":
+            continue        # the added line is acceptable there: an ordinary pair, covered without followers
+        if fk:
+            nfollow += 1
         chk.evaluations += 1
         chk.traces += 1
         chk.nontrivial.add(("fx", fx.name, files[fx.root]))
@@ -573,12 +619,14 @@ def c08(chk, tier):
                    "fixture": fx.name, "msg": (b.get("err") or {}).get("msg", ""),
                    "detail": "include-inside-open-parenthesis" if depth > 0 and a["outcome"] == "ok" and b["outcome"] == "error"
                    and (b["err"] or {}).get("file", "").endswith(name) else ""}
-            chk.violation("moving a run of complete %s of fixture %s into %s changed the result: one file %s, two files %s %s | main file:\n%s\n--- %s:\n%s" % (
-                "children of " + pk if pk else "top-level directives", fx.name, name, rel.describe(a), rel.describe(b), d,
+            chk.violation("moving a run of complete %s of %s into %s changed the result%s: one file %s, two files %s %s | main file:\n%s\n--- %s:\n%s" % (
+                "children of " + pk if pk else "top-level directives", fx.name, name,
+                " (a misplaced %s line follows the run)" % fk if fk else "", rel.describe(a), rel.describe(b), d,
                 files[fx.root].decode("latin1")[:1200], name, files[name].decode("latin1")[:600]),
-                {"kind": "fxpair", "fixture": fx.name, "root": fx.root, "files_a": {k: b64(v) for k, v in fx.files.items()},
+                {"kind": "fxpair", "fixture": fx.name, "root": fx.root, "files_a": {fx.root: b64(flat if fk else fx.data)},
                  "files_b": {k: b64(v) for k, v in files.items()}, "signature": sig}, sig)
     chk.extra["fixture_include_pairs"] = len(meta)
+    chk.extra["fixture_include_pairs_with_misplaced_follower"] = nfollow
 
 
 def c07(chk, tier):
